@@ -311,7 +311,7 @@ class AxisEval:
         keep = next((k.value for k in c.keywords if k.arg == "keepdim"), None)
         drop = {int(d) % len(lay) for d in dims} if lay else set()
         self.reduced.append((op, tuple(a for i, g in enumerate(lay) if i in drop for a in g)))
-        if keep is not None and const_number(keep):
+        if keep is not None and ((isinstance(keep, ast.Constant) and keep.value is True) or const_number(keep)):
             return tuple(() if i in drop else g for i, g in enumerate(lay))
         return tuple(g for i, g in enumerate(lay) if i not in drop)
 
